@@ -50,7 +50,11 @@ def trait_call(I, w, frame, site, fn, key, args, term):
     if dty['k'] == 'int':
         a = ATOMS.fresh(method, *AI.int_range(dty), defn=('traitcall', key, tuple(args)))
         return [(w, ('int', Lin.atom(a)))]
-    return [(w, I.deep_expand(w, ('top', reg_ty(dty), ('trait', key, site[:3]), f"{method}()")))]
+    res = I.deep_expand(w, ('top', reg_ty(dty), ('trait', key, site[:3]), f"{method}()"))
+    hook = I.cfg.get('trait_result_hooks', {}).get(key)
+    if hook:
+        res = hook(I, w, frame, site, args, res) or res
+    return [(w, res)]
 
 
 # ---------------------------------------------------------------- slices
@@ -107,7 +111,10 @@ def s_copy_from_slice(I, w, frame, site, fn, args, term):
     I.obligation(w, frame, site, 'copy-len', [le(d[3], s[3]), le(s[3], d[3])],
                  f"copy_from_slice: dst len {d[3].pretty()} == src len {s[3].pretty()}")
     src = content_of(I, w, s)
-    I.rec(frame, site[1], 'event', site, ('write', d[1], d[2], d[3], src, I.partition(w)))
+    I.rec(frame, site[1], 'event', site, ('write', d[1], d[2], d[3], src, I.partition(w), w.fork()))
+    wh = I.cfg.get('write_hook')
+    if wh:
+        wh(I, w, frame, site, d[1], d[2], d[3], src)
     root = d[1].root
     w.written = w.written | {root}
     if not d[1].path and root in w.mem and w.mem[root][0] == 'seq' and w.mem[root][3]:
@@ -518,7 +525,66 @@ def s_args_from_str(I, w, frame, site, fn, args, term):
     return [(w, ('top', reg_ty(term['dest_ty']), 'fmt', 'args'))]
 
 
+def _minmax(is_min):
+    def h(I, w, frame, site, fn, args, term):
+        a, b = args[0], args[1]
+        if a[0] != 'int' or b[0] != 'int':
+            return None
+        x, y = a[1], b[1]
+        out = []
+        w1 = w.fork()
+        if I.assume(w1, ('cmp', 'le', x, y), True):
+            out.append((w1, ('int', x if is_min else y)))
+        w2 = w.fork()
+        if I.assume(w2, ('cmp', 'lt', y, x), True):
+            out.append((w2, ('int', y if is_min else x)))
+        return out
+    return h
+
+
+def s_saturating_sub(I, w, frame, site, fn, args, term):
+    a, b = args[0], args[1]
+    if a[0] != 'int' or b[0] != 'int':
+        return None
+    x, y = a[1], b[1]
+    out = []
+    w1 = w.fork()
+    if I.assume(w1, ('cmp', 'le', y, x), True):
+        out.append((w1, ('int', x - y)))
+    w2 = w.fork()
+    if I.assume(w2, ('cmp', 'lt', x, y), True):
+        out.append((w2, vint(0)))
+    return out
+
+
+def s_checked(op):
+    def h(I, w, frame, site, fn, args, term):
+        a, b = args[0], args[1]
+        if a[0] != 'int' or b[0] != 'int':
+            return None
+        r = a[1] + b[1] if op == 'add' else a[1] - b[1]
+        dty = term['dest_ty']['args'][0]
+        lo, hi = AI.int_range(dty)
+        out = []
+        w1 = w.fork()
+        if I.assume(w1, ('and', ('cmp', 'le', Lin.c(lo), r), ('cmp', 'le', r, Lin.c(hi))), True):
+            out.append((w1, ('enum', ((1, (('int', r),)),))))
+        if not I.in_range(w, r, lo, hi):
+            out.append((w.fork(), ('enum', ((0, ()),))))
+        return out
+    return h
+
+
 TABLE = {
+    'std::cmp::min': _minmax(True),
+    'std::cmp::max': _minmax(False),
+    'core::cmp::min': _minmax(True),
+    'core::cmp::max': _minmax(False),
+    'std::cmp::Ord::min': _minmax(True),
+    'std::cmp::Ord::max': _minmax(False),
+    'core::num::saturating_sub': s_saturating_sub,
+    'core::num::checked_add': s_checked('add'),
+    'core::num::checked_sub': s_checked('sub'),
     'core::slice::len': s_len,
     'core::slice::index::index': s_index,
     'core::slice::index::index_mut': s_index,
